@@ -331,7 +331,7 @@ func corpusFiles() []string {
 
 func main() {
 	if pool.IsWorker() {
-		pool.Serve(map[string]pool.Handler{"alpha": alphaWorker, "corpus": corpusWorker, "loc": locWorker})
+		pool.Serve(map[string]pool.Handler{"alpha": alphaWorker, "corpus": corpusWorker, "loc": locWorker, "ml": mlWorker})
 	}
 	c := ev.New("C18")
 	defer runner.Cleanup()
@@ -394,6 +394,16 @@ func main() {
 	for _, ls := range locShards() {
 		shards = append(shards, pool.Shard{Kind: "loc", Arg: ls})
 	}
+	// multi-line lexeme family (multiline.go): bodies of <= mlSpanLen atoms lexed, of <= mlLocLen atoms run
+	mlSpanLen, mlLocLen := 3, 2
+	if !c.Quick() {
+		mlSpanLen, mlLocLen = 4, 3
+	}
+	for _, ms := range mlShards(mlSpanLen, mlLocLen) {
+		shards = append(shards, pool.Shard{Kind: "ml", Arg: ms})
+	}
+	c.Set("multiline_body_atoms_span", mlSpanLen)
+	c.Set("multiline_body_atoms_location", mlLocLen)
 	var inputs, lexes, tokens, programs int64
 	outcomes := map[string]int{}
 	pool.Run(shards, pool.Options{}, func(si int, rb json.RawMessage) {
@@ -458,6 +468,14 @@ func replay(c *ev.Check) {
 		fmt.Printf("%s\n--- %s %s line %d hasFrom=%v %s\n", src, o.Kind, o.Class, o.Line, o.HasFrom, o.Msg)
 		runner.Cleanup()
 		c.Finish(1, 1, 1, "probe")
+		return
+	}
+	if raw["kind"] == "mlloc" {
+		var lc mlLocCase
+		ev.LoadReplay(c.Replay, &lc)
+		replayMlLoc(c, key, lc)
+		runner.Cleanup()
+		c.Finish(1, 1, 1, "replay")
 		return
 	}
 	if raw["kind"] == "loc" {
